@@ -208,7 +208,34 @@ class U5(Universe):
         return o
 
 
-UNIVERSES = [(U1, 4, 6), (U2, 3, 4), (U3, 3, 4), (U4, 3, 5), (U5, 3, 4)]
+class U6(Universe):
+    """limits: codes of 2043 / 2044 and data names of 2048 / 2049 characters, and names whose UTF-16 form is longer than their
+    character count (the limits are in characters): the longest admissible ones behave like any other, the next longer are refused"""
+    name = 'U6-limits'
+    C43, C44 = 'b' * 2043, 'b' * 2044
+    N48, N49 = '_' + 'a' * 2047, '_' + 'a' * 2048
+    NS, CS = '_' + '\U00010400' * 1100, '\U00010428' * 1100
+    NS48, NS49 = '_' + '\U00010400' * 2047, '_' + '\U00010400' * 2048
+
+    def setup(self):
+        return [CifNew(0), BlkCreate(0, 'b', 'H0')]
+
+    def ops(self, m):
+        o = []
+        for code in [self.C43, self.C44, self.CS, self.C43.upper()]:
+            o += [BlkCreate(0, code, 'H1'), BlkGet(0, code, 'H1'), FrmCreate('H0', code, 'H2'), FrmGet('H0', code, 'H2')]
+        for h in ['H0', 'H1', 'H2']:
+            if h in m.H and m.h_live(h):
+                for name in [self.N48, self.N49, self.NS, self.NS48, self.NS49, self.N48.upper()]:
+                    o += [ItemSet(h, name, 'V1'), ItemGet(h, name), ItemRemove(h, name), LoopGetItem(h, name, 'L0')]
+                o += [LoopCreate(h, None, (self.N48, self.NS), 'L0'), LoopCreate(h, None, (self.N49,), 'L0'), LoopCreate(h, None, (self.NS48, '_x'), 'L0'), ContCode(h)]
+        if 'L0' in m.L and m.l_live('L0'):
+            o += [LoopAddPkt('L0', ((self.N48, 'V2'),)), LoopAddPkt('L0', ((self.NS, 'V2'), (self.N48.upper(), 'V3'))),
+                  LoopAddItem('L0', self.NS48, 'V1'), LoopAddItem('L0', self.NS49, 'V1'), LoopInfo('L0')]
+        return o
+
+
+UNIVERSES = [(U1, 4, 6), (U2, 3, 4), (U3, 3, 4), (U4, 3, 5), (U5, 3, 4), (U6, 3, 4)]
 
 
 def main():
